@@ -282,6 +282,9 @@ impl Matrix {
     pub fn run(&mut self, case: &Case) -> Vec<Value> {
         self.rot += 1;
         let rot = self.rot;
+        crate::progress::set_current(
+            json!({"op": case.op, "x": {"b": case.x}, "y": format!("{:?}", case.y), "a": case.a.to_json(), "forms": case.forms}).to_string(),
+        );
         // (key, representative, count)
         let mut groups: Vec<(ObsKey, Rep, u64)> = Vec::new();
         let xkinds: Vec<Kind> = match &case.xkinds {
